@@ -52,7 +52,7 @@ fn check_mvhd(v: &[u8], timescale: u32, duration: u32) {
     assert!(zeros(v, 80, 104), "pre_defined");
 }
 
-//@ prop=C19 tier=quick cost=10 fns="muxer::mp4::build_mvhd_payload,build_box" bound="all u32 durations" unwind=30
+//@ prop=C19 tier=quick cost=41 fns="muxer::mp4::build_mvhd_payload,build_box" bound="all u32 durations" unwind=30
 h!(c19_mvhd_progressive, 30, {
     let d: u32 = kani::any();
     let p = mp4h::build_mvhd_payload(d);
@@ -62,7 +62,7 @@ h!(c19_mvhd_progressive, 30, {
     assert!(next > 1, "next_track_ID must exceed the video track ID");
 });
 
-//@ prop=C19 tier=quick cost=10 fns="fragmented::build_mvhd_fmp4" bound="all u32 timescales" unwind=30
+//@ prop=C19 tier=quick cost=28 fns="fragmented::build_mvhd_fmp4" bound="all u32 timescales" unwind=30
 h!(c19_mvhd_fragmented, 30, {
     let ts: u32 = kani::any();
     let b = snap::<108>(&fh::build_mvhd_fmp4(ts));
@@ -96,7 +96,7 @@ fn check_tkhd_known_bad(v: &[u8], track_id: u32) {
     assert!(be32(v, 20) == track_id && track_id != 0, "track_ID");
 }
 
-//@ prop=C19 tier=quick cost=15 fns="muxer::mp4::build_tkhd_box,build_tkhd_box_with_id" bound="all widths/heights <= 65535" unwind=30
+//@ prop=C19 tier=quick cost=26 fns="muxer::mp4::build_tkhd_box,build_tkhd_box_with_id" bound="all widths/heights <= 65535" unwind=30
 h!(c19_tkhd_video_progressive, 30, {
     let w: u32 = kani::any();
     let hh: u32 = kani::any();
@@ -119,13 +119,13 @@ h!(c19_w_tkhd_video_progressive_layout, 30, {
     let b = snap::<96>(&mp4h::build_tkhd_box(&Mp4VideoTrack { width: w, height: hh }));
     check_tkhd(&b, 1, 0, w, hh);
 });
-//@ prop=C19 tier=quick cost=10 fns="muxer::mp4::build_tkhd_box" bound="one 640x480 track" unwind=30 expect=fail kf=KF-C19-progressive-tkhd-not-enabled
+//@ prop=C19 tier=quick cost=16 fns="muxer::mp4::build_tkhd_box" bound="one 640x480 track" unwind=30 expect=fail kf=KF-C19-progressive-tkhd-not-enabled
 h!(c19_w_tkhd_video_progressive_enabled, 30, {
     let b = snap::<96>(&mp4h::build_tkhd_box(&Mp4VideoTrack { width: 640, height: 480 }));
     assert!(tkhd_enabled(&b), "track_enabled flag must be set");
 });
 
-//@ prop=C19 tier=quick cost=10 fns="muxer::mp4::build_audio_tkhd_box" bound="no inputs" unwind=30
+//@ prop=C19 tier=quick cost=26 fns="muxer::mp4::build_audio_tkhd_box" bound="no inputs" unwind=30
 h!(c19_tkhd_audio_progressive, 30, {
     let b = snap::<96>(&mp4h::build_audio_tkhd_box());
     if crate::known::KF_C19_PROGRESSIVE_TKHD_LAYOUT {
@@ -148,7 +148,7 @@ h!(c19_w_tkhd_audio_progressive_enabled, 30, {
     assert!(tkhd_enabled(&b), "track_enabled flag must be set");
 });
 
-//@ prop=C19 tier=quick cost=15 fns="fragmented::build_tkhd_fmp4" bound="all widths/heights <= 65535" unwind=30
+//@ prop=C19 tier=quick cost=31 fns="fragmented::build_tkhd_fmp4" bound="all widths/heights <= 65535" unwind=30
 h!(c19_tkhd_fragmented, 30, {
     let w: u32 = kani::any();
     let hh: u32 = kani::any();
@@ -160,7 +160,7 @@ h!(c19_tkhd_fragmented, 30, {
     core::mem::forget(cfg);
 });
 
-//@ prop=C19 tier=quick cost=10 fns="muxer::mp4::build_mvhd_payload,build_tkhd_box,build_audio_tkhd_box" bound="no symbolic inputs (ids are constants)" unwind=30
+//@ prop=C19 tier=quick cost=42 fns="muxer::mp4::build_mvhd_payload,build_tkhd_box,build_audio_tkhd_box" bound="no symbolic inputs (ids are constants)" unwind=30
 h!(c19_track_ids_progressive, 30, {
     let p = snap::<100>(&mp4h::build_mvhd_payload(0));
     let next = be32(&p, 96);
@@ -173,7 +173,7 @@ h!(c19_track_ids_progressive, 30, {
         assert!(next > aid, "next_track_ID above the audio track ID");
     }
 });
-//@ prop=C19 tier=quick cost=10 fns="muxer::mp4::build_mvhd_payload,build_audio_tkhd_box" bound="no symbolic inputs" unwind=30 expect=fail kf=KF-C19-next-track-id-with-audio
+//@ prop=C19 tier=quick cost=37 fns="muxer::mp4::build_mvhd_payload,build_audio_tkhd_box" bound="no symbolic inputs" unwind=30 expect=fail kf=KF-C19-next-track-id-with-audio
 h!(c19_w_next_track_id_with_audio, 30, {
     let p = snap::<100>(&mp4h::build_mvhd_payload(0));
     let a = snap::<96>(&mp4h::build_audio_tkhd_box());
@@ -213,7 +213,7 @@ fn check_hdlr(v: &[u8], handler: &[u8; 4]) {
     assert!(is_type(v, 16, handler), "handler_type");
     assert!(v[v.len() - 1] == 0, "name is null-terminated");
 }
-//@ prop=C19 tier=quick cost=10 fns="muxer::mp4::build_hdlr_box,build_sound_hdlr_box,build_meta_hdlr_box,fragmented::build_hdlr_video" bound="no inputs" unwind=40
+//@ prop=C19 tier=quick cost=28 fns="muxer::mp4::build_hdlr_box,build_sound_hdlr_box,build_meta_hdlr_box,fragmented::build_hdlr_video" bound="no inputs" unwind=40
 h!(c19_hdlr_all, 40, {
     let a = snap::<45>(&mp4h::build_hdlr_box());
     check_hdlr(&a, b"vide");
@@ -228,7 +228,7 @@ h!(c19_hdlr_all, 40, {
     check_hdlr(&m, b"mdir");
 });
 
-//@ prop=C19 tier=quick cost=10 fns="muxer::mp4::build_vmhd_box,build_smhd_box,fragmented::build_vmhd" bound="no inputs" unwind=30
+//@ prop=C19 tier=quick cost=15 fns="muxer::mp4::build_vmhd_box,build_smhd_box,fragmented::build_vmhd" bound="no inputs" unwind=30
 h!(c19_vmhd_smhd, 30, {
     let f = snap::<20>(&fh::build_vmhd());
     assert!(f.len() == 20 && box_is(&f, 0, 20, b"vmhd") && be32(&f, 8) == 1 && zeros(&f, 12, 20));
@@ -252,7 +252,7 @@ fn check_dinf(v: &[u8]) {
     assert!(box_is(v, 8, 28, b"dref") && be32(v, 16) == 0 && be32(v, 20) == 1, "dref v0, one entry");
     assert!(box_is(v, 24, 12, b"url ") && be32(v, 32) == 1, "self-contained url entry");
 }
-//@ prop=C19 tier=quick cost=10 fns="muxer::mp4::build_dinf_box,build_dref_box,build_url_box,fragmented::build_dinf" bound="no inputs" unwind=30
+//@ prop=C19 tier=quick cost=21 fns="muxer::mp4::build_dinf_box,build_dref_box,build_url_box,fragmented::build_dinf" bound="no inputs" unwind=30
 h!(c19_dinf, 30, {
     check_dinf(&snap::<36>(&mp4h::build_dinf_box()));
     check_dinf(&snap::<36>(&fh::build_dinf()));
@@ -310,9 +310,9 @@ macro_rules! visual_prog {
         });
     };
 }
-//@ prop=C19,C07 tier=quick cost=30 fns="muxer::mp4::build_avc1_box,build_avcc_box" bound="all dims <= 65535; SPS 4 / PPS 2 symbolic bytes" unwind=40
+//@ prop=C19,C07 tier=quick cost=49 fns="muxer::mp4::build_avc1_box,build_avcc_box" bound="all dims <= 65535; SPS 4 / PPS 2 symbolic bytes" unwind=40
 visual_prog!(c19_avc1_progressive, mp4h::build_avc1_box, b"avc1", b"avcC", 111, AvcConfig::new(kani::any::<[u8; 4]>().to_vec(), kani::any::<[u8; 2]>().to_vec()));
-//@ prop=C19,C07 tier=quick cost=30 fns="muxer::mp4::build_hvc1_box,build_hvcc_box" bound="all dims <= 65535; VPS 2 / SPS 4 / PPS 2 symbolic bytes" unwind=40
+//@ prop=C19,C07 tier=quick cost=68 fns="muxer::mp4::build_hvc1_box,build_hvcc_box" bound="all dims <= 65535; VPS 2 / SPS 4 / PPS 2 symbolic bytes" unwind=40
 visual_prog!(c19_hvc1_progressive, mp4h::build_hvc1_box, b"hvc1", b"hvcC", 140, HevcConfig::new(kani::any::<[u8; 2]>().to_vec(), kani::any::<[u8; 4]>().to_vec(), kani::any::<[u8; 2]>().to_vec()));
 //@ prop=C19,C07 tier=quick cost=30 fns="muxer::mp4::build_vp09_box,build_vpcc_box" bound="all dims <= 65535; all Vp9Config field values" unwind=40
 visual_prog!(c19_vp09_progressive, mp4h::build_vp09_box, b"vp09", b"vpcC", 102, vp9cfg());
@@ -353,7 +353,7 @@ visual_frag!(c19_avc1_fragmented, fh::build_avc1_fmp4, b"avc1", b"avcC", 111, |c
     c.sps = kani::any::<[u8; 4]>().to_vec();
     c.pps = kani::any::<[u8; 2]>().to_vec();
 });
-//@ prop=C19,C07 tier=quick cost=30 fns="fragmented::build_hvc1_fmp4,build_hvcc_fmp4" bound="all dims <= 65535; VPS 2 / SPS 4 / PPS 2 symbolic bytes" unwind=40
+//@ prop=C19,C07 tier=quick cost=43 fns="fragmented::build_hvc1_fmp4,build_hvcc_fmp4" bound="all dims <= 65535; VPS 2 / SPS 4 / PPS 2 symbolic bytes" unwind=40
 visual_frag!(c19_hvc1_fragmented, fh::build_hvc1_fmp4, b"hvc1", b"hvcC", 140, |c| {
     c.vps = Some(kani::any::<[u8; 2]>().to_vec());
     c.sps = kani::any::<[u8; 4]>().to_vec();
@@ -451,7 +451,7 @@ fn check_hvcc_array<const N: usize>(v: &[u8], o: usize, nal_type: u8, nal: &[u8;
     }
     o + 5 + N
 }
-//@ prop=C19,C07 tier=quick cost=30 fns="muxer::mp4::build_hvcc_box,HevcConfig accessors" bound="VPS 2 / SPS 5 / PPS 3 symbolic bytes" unwind=12
+//@ prop=C19,C07 tier=quick cost=56 fns="muxer::mp4::build_hvcc_box,HevcConfig accessors" bound="VPS 2 / SPS 5 / PPS 3 symbolic bytes" unwind=12
 h!(c19_hvcc_progressive, 12, {
     let vps: [u8; 2] = kani::any();
     let sps: [u8; 5] = kani::any();
@@ -503,7 +503,7 @@ fn check_av1c_head(v: &[u8], obu_len: usize) {
     assert!(v[8] == 0x81, "marker 1 + version 1");
     assert!(v[11] & 0xe0 == 0, "reserved 000");
 }
-//@ prop=C19,C07 tier=quick cost=30 fns="muxer::mp4::build_av1c_box" bound="all Av1Config values with profile<=7, level<=31, tier<=1, csp<=3; 3-byte OBU" unwind=8
+//@ prop=C19,C07 tier=quick cost=15 fns="muxer::mp4::build_av1c_box" bound="all Av1Config values with profile<=7, level<=31, tier<=1, csp<=3; 3-byte OBU" unwind=8
 h!(c19_av1c_progressive, 8, {
     let obu: [u8; 3] = kani::any();
     let c = av1cfg(obu.to_vec());
@@ -519,7 +519,7 @@ h!(c19_av1c_progressive, 8, {
     assert!(b[12] == obu[0] && b[13] == obu[1] && b[14] == obu[2], "configOBUs");
     core::mem::forget(c);
 });
-//@ prop=C19,C07 tier=quick cost=20 fns="fragmented::build_av1c_fmp4" bound="3-byte OBU" unwind=8
+//@ prop=C19,C07 tier=quick cost=9 fns="fragmented::build_av1c_fmp4" bound="3-byte OBU" unwind=8
 h!(c19_av1c_fragmented, 8, {
     let obu: [u8; 3] = kani::any();
     let mut c = frag_cfg_h264(1, 1, 1);
@@ -532,7 +532,7 @@ h!(c19_av1c_fragmented, 8, {
     }
     core::mem::forget(c);
 });
-//@ prop=C19 tier=quick cost=20 fns="fragmented::build_av1c_fmp4" bound="3-byte OBU" unwind=8 expect=fail kf=KF-C19-fragmented-av1c-layout
+//@ prop=C19 tier=quick cost=5 fns="fragmented::build_av1c_fmp4" bound="3-byte OBU" unwind=8 expect=fail kf=KF-C19-fragmented-av1c-layout
 h!(c19_w_av1c_fragmented_layout, 8, {
     let obu: [u8; 3] = kani::any();
     let mut c = frag_cfg_h264(1, 1, 1);
@@ -550,7 +550,7 @@ fn check_vpcc(v: &[u8], c: &Vp9Config) {
     assert!(v[14] >> 4 == c.bit_depth && v[14] & 1 == c.full_range_flag);
     assert!(be16(v, 18) == 0, "codecIntializationDataSize");
 }
-//@ prop=C19,C07 tier=quick cost=20 fns="muxer::mp4::build_vpcc_box,fragmented::build_vpcc_fmp4" bound="all Vp9Config values" unwind=8
+//@ prop=C19,C07 tier=quick cost=8 fns="muxer::mp4::build_vpcc_box,fragmented::build_vpcc_fmp4" bound="all Vp9Config values" unwind=8
 h!(c19_vpcc_both, 8, {
     let c = vp9cfg();
     let b = snap::<16>(&mp4h::build_vpcc_box(&c));
@@ -565,7 +565,7 @@ h!(c19_vpcc_both, 8, {
     }
     core::mem::forget(fc);
 });
-//@ prop=C19 tier=quick cost=20 fns="muxer::mp4::build_vpcc_box" bound="all Vp9Config values" unwind=8 expect=fail kf=KF-C19-vpcc-layout
+//@ prop=C19 tier=quick cost=5 fns="muxer::mp4::build_vpcc_box" bound="all Vp9Config values" unwind=8 expect=fail kf=KF-C19-vpcc-layout
 h!(c19_w_vpcc_layout, 8, {
     let c = vp9cfg();
     let b = snap::<16>(&mp4h::build_vpcc_box(&c));
@@ -594,7 +594,7 @@ fn check_audio_entry(v: &[u8], fourcc: &[u8; 4], channels: u16, rate: u32, cfg: 
     assert!((be32(v, 32) as u64) == (rate as u64) << 16, "samplerate 16.16");
     assert!(box_is(v, 36, v.len() - 36, cfg), "codec box fills the rest");
 }
-//@ prop=C19,C07 tier=quick cost=30 fns="muxer::mp4::build_mp4a_box,build_esds_box,build_audio_specific_config" bound="all u16 channel counts, all sample rates < 65536, 6 AAC profiles" unwind=12
+//@ prop=C19,C07 tier=quick cost=84 fns="muxer::mp4::build_mp4a_box,build_esds_box,build_audio_specific_config" bound="all u16 channel counts, all sample rates < 65536, 6 AAC profiles" unwind=12
 h!(c19_mp4a, 12, {
     let rate: u32 = kani::any();
     kani::assume(rate < 65536);
